@@ -43,6 +43,7 @@ var fsmon = struct {
 	snaps    []*fsSnapshot
 	lastHash string
 	visHash  string
+	visFiles map[string][]byte
 	window   string
 	// inject
 	target   int // ordinal (1-based) of the "pre" event of the current call to fail
@@ -57,7 +58,7 @@ func fsReset(mode, root string) {
 	fsmon.mu.Lock()
 	fsmon.mode, fsmon.root = mode, root
 	fsmon.events, fsmon.snaps, fsmon.lastHash = nil, nil, ""
-	fsmon.visHash, fsmon.window = "", "-"
+	fsmon.visHash, fsmon.window, fsmon.visFiles = "", "-", nil
 	fsmon.target, fsmon.count, fsmon.injected = 0, 0, nil
 	fsmon.step = 0
 	fsmon.mu.Unlock()
@@ -200,7 +201,10 @@ func fsHook(ev *FSEvent) error {
 				}
 				if vh := hashTree(vis); vh != fsmon.visHash {
 					fsmon.visHash = vh
-					fsmon.window = ev.Op + "@" + sodSite(3)
+					// the window is named after what changed in the visible
+					// tree, not after the code that changed it
+					fsmon.window = visibleChange(fsmon.visFiles, vis)
+					fsmon.visFiles = vis
 				}
 				fsmon.snaps = append(fsmon.snaps, &fsSnapshot{Window: fsmon.window, Files: files, Hash: h, Op: ev.Op, Phase: ev.Phase, Site: sodSite(3), Path: relTo(fsmon.root, ev.Path), Seq: len(fsmon.snaps), Step: fsmon.step})
 			}
@@ -240,4 +244,37 @@ func takeSnapshotNow(label string) *fsSnapshot {
 
 func fsHooks(split bool) *Hooks {
 	return &Hooks{FS: fsHook, SplitWrites: split, Sleep: clockSleep, Go: clockGo}
+}
+
+// visibleChange names the difference between two visible trees: which class
+// of file (schema / object) was created, modified or removed.
+func visibleChange(old, cur map[string][]byte) string {
+	kinds := map[string]bool{}
+	class := func(n string) string {
+		if filepath.Base(n) == "schema.json" {
+			return "schema"
+		}
+		return "object"
+	}
+	for n, b := range cur {
+		if ob, ok := old[n]; !ok {
+			kinds[class(n)+"-created"] = true
+		} else if string(ob) != string(b) {
+			kinds[class(n)+"-modified"] = true
+		}
+	}
+	for n := range old {
+		if _, ok := cur[n]; !ok {
+			kinds[class(n)+"-removed"] = true
+		}
+	}
+	var ks []string
+	for k := range kinds {
+		ks = append(ks, k)
+	}
+	sort.Strings(ks)
+	if len(ks) == 0 {
+		return "-"
+	}
+	return strings.Join(ks, "+")
 }
